@@ -168,11 +168,20 @@ def build_driver(profile="dev"):
     lock_dst = os.path.join(HARNESS, "Cargo.lock")
     if not os.path.exists(lock_dst) and os.path.exists(lock_src):
         shutil.copy(lock_src, lock_dst)
+    global HOOKLESS
     env = {"RUSTFLAGS": "--cfg bsv_verif", "CARGO_NET_OFFLINE": "true", "CARGO_TARGET_DIR": os.path.join(HARNESS, "target")}
     cmd = ["cargo", "build", "--offline", "--quiet"] + (["--release"] if profile == "release" else [])
     rc, out = sh(cmd, cwd=HARNESS, timeout=1800, env=env)
     if rc:
-        return None, out
+        # The hook `verif_hash_cache` (compiled only under --cfg bsv_verif) reads private fields; a refactoring of
+        # HashCache that nobody compiled with the flag breaks it without changing any behaviour.  Build without the
+        # hook: the cache view is then printed as `?` and masked in the comparison, everything else is checked as usual.
+        env2 = dict(env); env2["RUSTFLAGS"] = ""
+        rc2, out2 = sh(cmd, cwd=HARNESS, timeout=1800, env=env2)
+        if rc2:
+            return None, out + "\n---- without --cfg bsv_verif ----\n" + out2
+        HOOKLESS = True
+        out = "hook verif_hash_cache does not compile against this tree; driver built WITHOUT --cfg bsv_verif\n" + out
     return os.path.join(HARNESS, "target", "release" if profile == "release" else "debug", "bsvdrv"), out
 
 
@@ -252,7 +261,78 @@ def driver_eval(binary, cases, workdir, tag="cases", timeout=1800, stall=None):
     return results
 
 
+# ---------------------------------------------------------------- sibling stream
+def sibling_cases(gen, rng, tier, mod):
+    """Call-history stream shared by all properties: triples (base, sibling, base) run back to back in the one driver
+    process, where the sibling equals the base in every argument but one (taken from another generated case of the same
+    operation).  A result that is remembered between calls under a key that leaves one argument out (a memo, a
+    thread-local cache, a 'same as last time' shortcut) then answers the sibling, or the repeated base, with the other
+    one's result; the model is a function of the arguments, so the correspondence breaks on that case.
+    The stream is capped at about a sixth of the generated cases (at least 24 triples)."""
+    if getattr(mod, "SIBLINGS", True) is False:
+        return []
+    byop = {}
+    for op, args in gen:
+        if len(args) >= 2:
+            byop.setdefault((op, len(args)), []).append(args)
+    budget = max(24, len(gen) // (18 if tier == "quick" else 9))
+    out, keys = [], sorted(byop)
+    rounds = 0
+    while budget > 0 and keys and rounds < 50:
+        rounds += 1
+        progressed = False
+        for key in keys:
+            pool = byop[key]
+            if len(pool) < 2 or budget <= 0:
+                continue
+            base = rng.choice(pool)
+            j = (rounds - 1) % key[1]
+            others = [a[j] for a in pool if a[j] != base[j] and len(a[j]) <= 4096]
+            if not others or sum(len(x) for x in base) > 8192:
+                continue
+            sibl = list(base)
+            sibl[j] = rng.choice(others)
+            out += [(key[0], list(base)), (key[0], sibl), (key[0], list(base))]
+            budget -= 1
+            progressed = True
+        if not progressed and rounds > 8:
+            break
+    return out
+
+
 # ---------------------------------------------------------------- comparison
+HOOKLESS = False
+
+
+def mask_by(d, x):
+    """hookless mode: the driver prints `?` where the cache view would be; put `?` at the same places of x"""
+    fd, fx = d.split(";"), x.split(";")
+    if len(fd) != len(fx):
+        return x
+    out = []
+    for a, b in zip(fd, fx):
+        if a == "?":
+            out.append("?")
+        elif "?" in a and len(a) == len(b):
+            out.append("".join("?" if ca == "?" else cb for ca, cb in zip(a, b)))
+        else:
+            out.append(b)
+    return ";".join(out)
+
+
+def mask_models(dres, mres):
+    if not HOOKLESS:
+        return mres
+    out = []
+    for (d, _), m in zip(dres, mres):
+        if "?" not in d:
+            out.append(m); continue
+        mi, ms, mk = split3(m)
+        ms2 = ms if ms == "-" else "~".join(mask_by(d, a) for a in ms.split("~"))
+        out.append("|".join([mask_by(d, mi), ms2, mk]))
+    return out
+
+
 def split3(m):
     p = m.split("|")
     if len(p) != 3:
@@ -383,6 +463,9 @@ def main():
         # the library (or the driver against it) no longer compiles: nothing can be said
         open(os.path.join(work, "cargo_build.log"), "w").write(out)
         fail_machinery("cargo build of the driver against %s failed; see %s" % (REPO, os.path.join(work, "cargo_build.log")))
+    if HOOKLESS:
+        log("NOTE: the hook verif_hash_cache does not compile against this tree; driver built without --cfg bsv_verif, cache view masked")
+        notes.append("hook verif_hash_cache (cfg bsv_verif) does not compile against this tree: driver built without it; the memoised-hash view is masked in the comparison, all other outputs are compared as usual")
 
     # replay mode
     if replay:
@@ -390,6 +473,7 @@ def main():
         case = (obj["case"][0], obj["case"][1])
         d = driver_eval(binary, [case], work, "replay")[0]
         m = coq_eval(exec_module, [case], work, 1200, "replay")[0] if exec_ok else "?|?|?"
+        m = mask_models([d], [m])[0]
         mi, ms, mk = split3(m)
         print("case:   %s %s" % case)
         print("driver: %s" % d[0])
@@ -423,12 +507,14 @@ def main():
     for e in findings + fixed:
         if e["witness"]:
             wit.append((e["witness"][0], e["witness"][1:]))
-    cases = wit + corpus + gen
-    log("cases: %d witnesses, %d corpus, %d generated (tier %s, seed %d)" % (len(wit), len(corpus), len(gen), tier, seed))
+    sib = sibling_cases(gen, rng, tier, mod)
+    cases = wit + corpus + gen + sib
+    sib_from = len(cases) - len(sib)
+    log("cases: %d witnesses, %d corpus, %d generated, %d siblings (tier %s, seed %d)" % (len(wit), len(corpus), len(gen), len(sib), tier, seed))
 
     dres = driver_eval(binary, cases, work)
     if exec_ok:
-        mres = coq_eval(exec_module, cases, work, timeout=(900 if tier == "quick" else 5400))
+        mres = mask_models(dres, coq_eval(exec_module, cases, work, timeout=(900 if tier == "quick" else 5400)))
     else:
         mres = ["?|-|-"] * len(cases)
 
@@ -445,6 +531,8 @@ def main():
         elif d == "ERR": stats["err"] += 1
         else: stats["ok"] += 1
         if mi in ("BADOP", "BADARG") or d in ("BADOP", "BADARG"):
+            if i >= sib_from:
+                continue        # a sibling whose swapped argument does not fit the operation's argument format: dropped
             fail_machinery("case %r not understood: driver=%s model=%s" % (case, d, mi))
         meets_spec = spec_matches(d, ms)
         if mem_rule is not None and d != "ABORT":
@@ -495,7 +583,7 @@ def main():
         pool = [(op, [str(a) for a in args]) for (op, args) in pool][:1500]
         if pool and exec_ok:
             d2 = driver_eval(binary, pool, work, "search")
-            m2 = coq_eval(exec_module, pool, work, 1800, "search")
+            m2 = mask_models(d2, coq_eval(exec_module, pool, work, 1800, "search"))
             for c, (d, _), m in zip(pool, d2, m2):
                 mi, ms, mk = split3(m)
                 if not spec_matches(d, ms) and not (mk != "-" and mk in known_classes):
